@@ -566,6 +566,11 @@ KERNEL_GROUPS = {
     ],
     'KernelsAnnot': [
         ('annot_variant.py', 'get_codon_range_offset', 'k_codon_range_offset', None),
+        # the in-frame part of a coding region (None when it holds no complete codon: the defect repaired in cae8953)
+        ('utils.py', 'get_codon_offset_complement', 'ka_codon_offset_complement', None),
+        ('cds_seq.py', 'CdsSeq.cds_prefix_length', 'k_cds_prefix_length', 'cds'),
+        ('cds_seq.py', 'CdsSeq.cds_suffix_length', 'k_cds_suffix_length', 'cds'),
+        ('cds_seq.py', 'CdsSeq.get_inner_cds_range', 'k_cds_inner_range', 'cds'),
     ],
     # MAVE-HGVS strings: every function of mave_hgvs.py (f-strings, optional strings, the VariantType / MAVEPrefix enums of enums.py)
     'KernelsMave': [
